@@ -199,6 +199,18 @@ class Fn:
                         self.events.insert(j, self.events.pop(l))
                         break
 
+    @classmethod
+    def unreadable(cls, decl, path, why):
+        self = cls.__new__(cls)
+        self.name = decl["name"]
+        self.path = os.path.relpath(path, os.path.join(REPO, "primitiv", "c"))
+        self.params, self.lens, self.rets = [], {}, []
+        self.events = [(0, "Unknown", why)]
+        self.has_try = self.catch_std = self.handler_ok = False
+        self.line = 0
+        self.error = why
+        return self
+
     # the handler must be `return ErrorHandler::get_instance().handle(e);`
     def handler_returns_handle(self, comp, eid):
         sts = [s for s in kids(comp) if s["kind"] != "NullStmt"]
@@ -528,54 +540,69 @@ def helper_facts(ns_text):
     def is_fn(name):
         return lambda o: o.get("kind") in ("FunctionDecl", "CXXMethodDecl") and o.get("name") == name and \
             any(c.get("kind") == "CompoundStmt" for c in kids(o))
-    for h in HELPERS:
+    class Unreadable(Exception):
+        pass
+
+    def read_helper(h):
+        """facts of one helper; `guard_plain` = the outer condition is exactly the buffer pointer.
+        Raises Unreadable for a shape the patterns do not cover."""
         fs = find_all(ns, is_fn(h), [])
         if not fs:
-            raise RuntimeError("helper %s not found in internal.h" % h)
+            raise Unreadable("not found in internal.h")
         f = fs[0]      # the template pattern (first) -- all instantiations share it
         body = [c for c in kids(f) if c.get("kind") == "CompoundStmt"][0]
         top = [s for s in kids(body) if s["kind"] != "NullStmt"]
         if len(top) != 1 or top[0]["kind"] != "IfStmt" or len(kids(top[0])) != 3:
-            raise RuntimeError("helper %s: body is not `if (buf) {...} else {...}`" % h)
+            raise Unreadable("body is not `if (buf) {...} else {...}`")
         cond, then, els = kids(top[0])
         cd = refdecl(cond)
         params = [c for c in kids(f) if c.get("kind") == "ParmVarDecl"]
-        if not cd or cd.get("id") != params[1]["id"]:
-            raise RuntimeError("helper %s: outer condition is not the buffer pointer" % h)
+        if len(params) != 3:
+            raise Unreadable("not three parameters")
+        guard_plain = bool(cd) and cd.get("id") == params[1]["id"]
         ifs = [s for s in kids(then) if s.get("kind") == "IfStmt"]
         if len(ifs) != 1 or not contains(kids(ifs[0])[1], "CXXThrowExpr") or len(kids(ifs[0])) != 2:
-            raise RuntimeError("helper %s: no single size test with a throw" % h)
+            raise Unreadable("no single size test with a throw")
         cmp_ = strip(kids(ifs[0])[0])
         if cmp_.get("kind") != "BinaryOperator":
-            raise RuntimeError("helper %s: size test is not a comparison" % h)
+            raise Unreadable("size test is not a comparison")
         lhs = strip(kids(cmp_)[0])
         lhs_ok = lhs.get("kind") == "UnaryOperator" and lhs.get("opcode") == "*" and \
             (refdecl(kids(lhs)[0]) or {}).get("id") == params[2]["id"]
         rhs = size_expr(kids(cmp_)[1])
         if not lhs_ok or rhs is None:
-            raise RuntimeError("helper %s: size test is not `*size <op> src.size()`" % h)
+            raise Unreadable("size test is not `*size <op> src.size()`")
         msg = [s["value"] for s in find_all(kids(ifs[0])[1], lambda o: o.get("kind") == "StringLiteral" and "Size" in o.get("value", ""), [])]
         # statements of the then-branch before/after the test: the copy must come after it
         order = [s.get("kind") for s in kids(then) if s.get("kind") != "NullStmt"]
         copy_after_test = order and order[0] == "IfStmt" and len(order) == 2
         asg = [s for s in kids(els) if strip(s).get("kind") == "BinaryOperator" and strip(s).get("opcode") == "="]
-        if len(asg) != 1:
-            raise RuntimeError("helper %s: else branch is not one assignment" % h)
+        if len(asg) != 1 or len([s for s in kids(els) if s.get("kind") != "NullStmt"]) != 1:
+            raise Unreadable("else branch is not one assignment")
         a = strip(asg[0])
         al = strip(kids(a)[0])
         al_ok = al.get("kind") == "UnaryOperator" and al.get("opcode") == "*" and (refdecl(kids(al)[0]) or {}).get("id") == params[2]["id"]
         ar = size_expr(kids(a)[1])
         if not al_ok or ar is None:
-            raise RuntimeError("helper %s: else branch is not `*size = src.size()`" % h)
-        facts[h] = {"cmp": cmp_["opcode"], "cmp_plus": rhs[1], "query_plus": ar[1], "copy_after_test": bool(copy_after_test),
-                    "message": msg[0].strip('"') if msg else ""}
+            raise Unreadable("else branch is not `*size = src.size()`")
+        return {"cmp": cmp_["opcode"], "cmp_plus": rhs[1], "query_plus": ar[1], "copy_after_test": bool(copy_after_test),
+                "message": msg[0].strip('"') if msg else "", "guard_plain": guard_plain, "recognised": True,
+                "why": "" if guard_plain else "the outer condition is not just the buffer pointer"}
+
+    for h in HELPERS:
+        try:
+            facts[h] = read_helper(h)
+        except Exception as ex:   # an unrecognised shape: a marker no theorem accepts, never a crash
+            facts[h] = {"cmp": "?", "cmp_plus": 0, "query_plus": 0, "copy_after_test": False, "message": "",
+                        "guard_plain": False, "recognised": False, "why": "%s: %s" % (type(ex).__name__, ex)}
     # ErrorHandler::handle returns PRIMITIV_C_ERROR and stores e.what(); reset stores "OK"
     hs = find_all(ns, is_fn("handle"), [])
     rs = find_all(ns, is_fn("reset"), [])
     ctor = find_all(ns, lambda o: o.get("kind") == "CXXConstructorDecl" and o.get("name") == "ErrorHandler" and
                     any(c.get("kind") == "CXXCtorInitializer" for c in kids(o)), [])
     if not hs or not rs:
-        raise RuntimeError("ErrorHandler::handle/reset not found")
+        facts["handler"] = {"handle_returns": 99, "handle_stores_what": False, "reset_message": "?", "initial_message": "?"}
+        return facts
     rets = find_all(hs[0], lambda o: o.get("kind") == "ReturnStmt", [])
     rv = strip(kids(rets[0])[0]) if rets else {}
     if rv.get("kind") == "UnaryOperator" and rv.get("opcode") == "-":
@@ -664,13 +691,14 @@ def emit(fns, facts, tl, files):
     hmap = {"copy_vector_to_array": "HCopyVector", "copy_string_to_array": "HCopyString",
             "move_vector_to_array_of_c_ptrs": "HMoveVector"}
     cmpmap = {"<": "CLt", "<=": "CLe", ">": "CGt", ">=": "CGe", "==": "CEq", "!=": "CNe"}
-    L.append("(* c/internal/internal.h: `if (buf) { if ( *size CMP src.size() + a ) throw; copy } else { *size = src.size() + b }` *)")
+    L.append("(* c/internal/internal.h (last flag: the outer condition is exactly `if (buf)` and the shape was recognised): `if (buf) { if ( *size CMP src.size() + a ) throw; copy } else { *size = src.size() + b }` *)")
     L.append("Definition helper_table : list (helper * helper_code) :=")
     rows = []
     for h in HELPERS:
         x = facts[h]
-        rows.append("(%s, mkHelperCode %s %d %d %s %s)" % (hmap[h], cmpmap.get(x["cmp"], "CNe"), x["cmp_plus"], x["query_plus"],
-                                                          "true" if x["copy_after_test"] else "false", coq_str(x["message"])))
+        rows.append("(%s, mkHelperCode %s %d %d %s %s %s)" % (hmap[h], cmpmap.get(x["cmp"], "CNe"), x["cmp_plus"], x["query_plus"],
+                                                             "true" if x["copy_after_test"] else "false",
+                                                             "true" if (x["guard_plain"] and x["recognised"]) else "false", coq_str(x["message"])))
     L.append("  [%s]." % ";\n   ".join(rows))
     hd = facts["handler"]
     L.append("")
@@ -694,11 +722,14 @@ def analyse():
                 continue
             if not any(c.get("kind") in ("CXXTryStmt", "CompoundStmt") for c in kids(d)):
                 continue        # a prototype
-            fns.append(Fn(d, f))
+            try:
+                fns.append(Fn(d, f))
+            except Exception as ex:      # a wrapper the patterns cannot read: a row no theorem accepts
+                fns.append(Fn.unreadable(d, f, "%s: %s" % (type(ex).__name__, ex)))
         if others and ns_text is None:
             ns_text = others[0]
     if ns_text is None:
-        raise RuntimeError("internal.h declarations not found in any AST dump")
+        ns_text = '{"kind": "NamespaceDecl", "inner": []}'   # every helper becomes `unrecognised`
     seen = {}
     for f in fns:
         if f.name in seen:
@@ -726,7 +757,8 @@ def main():
                      "cls": (p["ptype"][2] if p["ptype"][0] in ("PObjPtr", "PObjPtrPtr", "PDataPtr") else (p["ptype"][1] if p["ptype"][0] == "PScalar" else None)),
                      "len_param": f.lens.get(i)} for i, p in enumerate(f.params)],
          "events": [[p, u, x] for (p, u, x) in f.events],
-         "try": f.has_try, "catch_std": f.catch_std, "handler": f.handler_ok, "rets": f.rets} for f in fns],
+         "try": f.has_try, "catch_std": f.catch_std, "handler": f.handler_ok, "rets": f.rets,
+         "unreadable": getattr(f, "error", None)} for f in fns],
         "helpers": facts, "thread_local": tl}
     with open(OUT_JSON, "w") as f:
         json.dump(js, f, indent=1)
